@@ -76,6 +76,33 @@ def gen_files(rnd, bs):
     return files
 
 
+def recut(rnd, bs, files):
+    """the same files (flag words, bytes) with another cut of the bytes into append calls (no empty chunk)"""
+    out = []
+    for fl, chunks in files:
+        rest = b"".join(chunks)
+        mode = rnd.choice(["one", "rand", "bs", "byte", "bs-1", "first1"])
+        new = []
+        if mode == "first1" and rest:
+            new.append(rest[:1])
+            rest = rest[1:]
+        while rest:
+            if mode == "one":
+                k = len(rest)
+            elif mode == "bs":
+                k = bs
+            elif mode == "bs-1":
+                k = max(1, bs - 1)
+            elif mode == "byte":
+                k = rnd.randint(1, 2)
+            else:
+                k = rnd.randint(1, 2 * bs + 1)
+            new.append(rest[:k])
+            rest = rest[k:]
+        out.append((fl, new))
+    return out
+
+
 def case_line(bs, workers, backlog, files):
     parts = [str(bs), str(workers), str(backlog), str(len(files))]
     for fl, chunks in files:
